@@ -43,7 +43,10 @@ def _optimize_operator_call_attr(  # pylint: disable=too-many-return-statements
 
     Using Python operators directly will allow for more direct bytecode to be
     emitted by the Python compiler and take advantage of any additional performance
-    improvements in future versions of Python."""
+    improvements in future versions of Python.
+
+    Calls which do not have the arity of the operator function are left untouched: they
+    fail when (and only when) they are executed, exactly as without optimization."""
     if isinstance(fn.value, ast.Name) and fn.value.id == OPERATOR_ALIAS:
         binop = {
             "add": ast.Add,
@@ -60,17 +63,15 @@ def _optimize_operator_call_attr(  # pylint: disable=too-many-return-statements
             "truediv": ast.Div,
             "xor": ast.BitXor,
         }.get(fn.attr)
-        if binop is not None:
+        if binop is not None and len(node.args) == 2:
             arg1, arg2 = node.args
-            assert len(node.args) == 2
             return ast.BinOp(arg1, binop(), arg2)
 
         unaryop = {"not_": ast.Not, "inv": ast.Invert, "invert": ast.Invert}.get(
             fn.attr
         )
-        if unaryop is not None:
+        if unaryop is not None and len(node.args) == 1:
             arg = node.args[0]
-            assert len(node.args) == 1
             return ast.UnaryOp(unaryop(), arg)
 
         compareop = {
@@ -81,32 +82,28 @@ def _optimize_operator_call_attr(  # pylint: disable=too-many-return-statements
             "gt": ast.Gt,
             "ge": ast.GtE,
         }.get(fn.attr)
-        if compareop is not None:
+        if compareop is not None and len(node.args) == 2:
             arg1, arg2 = node.args
-            assert len(node.args) == 2
             return ast.Compare(arg1, [compareop()], [arg2])
 
         isop = {
             "is_": (ast.Is, ast.Eq),
             "is_not": (ast.IsNot, ast.NotEq),
         }.get(fn.attr)
-        if isop is not None:
+        if isop is not None and len(node.args) == 2:
             isoper, eqoper = isop
             arg1, arg2 = node.args
-            assert len(node.args) == 2
             oper = (
                 eqoper if any(_needs_eq_operator(arg) for arg in node.args) else isoper
             )
             return ast.Compare(arg1, [oper()], [arg2])
 
-        if fn.attr == "contains":
+        if fn.attr == "contains" and len(node.args) == 2:
             arg1, arg2 = node.args
-            assert len(node.args) == 2
             return ast.Compare(arg2, [ast.In()], [arg1])
 
-        if fn.attr == "getitem":
+        if fn.attr == "getitem" and len(node.args) == 2:
             target, index = node.args
-            assert len(node.args) == 2
             return ast.Subscript(value=target, slice=index, ctx=ast.Load())
 
     return node
